@@ -51,6 +51,16 @@ def gen_points(r, n):
 def gen_polar(r, kind=None):
     """polar coefficient dict; kinds: all / subset / single-order / principal (magnitudes > 0, m*phi in (-pi, pi])"""
     kind = kind or r.choice(["all", "all", "subset", "single", "principal", "loworder"])
+    if kind == "outside":           # outside the principal domain: negative magnitudes, angles of several turns
+        d = {}
+        for k in POLAR_SYMBOLS:
+            if r.random() < 0.15:
+                continue
+            if k.startswith("phi"):
+                d[k] = r.choice([r.uniform(-12.0, 12.0), r.uniform(-3.5, 3.5), math.pi / int(k[4]), -math.pi / int(k[4])])
+            else:
+                d[k] = r.choice([r.uniform(-3.0, -0.05), r.uniform(-3.0, 3.0), 0.0]) if r.random() < 0.9 else r.uniform(0.05, 3.0)
+        return kind, d
     d = {}
     if kind in ("all", "principal"):
         keys = list(POLAR_SYMBOLS)
@@ -81,6 +91,53 @@ def gen_fit(r):
             "phi12": r.uniform(-1.55, 1.55), "wavelength": r.choice([0.0197, 0.0251, 0.0370]),
             "gpts": r.choice([[16, 16], [12, 20], [24, 16]]), "sampling": r.choice([[0.4, 0.4], [0.25, 0.5], [0.3, 0.2]]),
             "kmax": r.choice([0.6, 0.9, 1.2])}
+
+
+MASK_KINDS = ["disk", "half-x", "half-y", "quadrant", "offaxis", "annulus", "random"]
+
+
+def gen_fit2(r, domain=None):
+    """round-3 generator: every bright-field mask shape (centred disk, half disks, quadrant, off-axis
+    sub-disk, annulus, random subset), odd and even non-square grids, anisotropic sampling, and the
+    domains  'inside' (identifiable: |theta| < pi/2, 0 < C12 < |C10|), 'defocus' (C12 = 0),
+    'large-angle' (pi/2 < |theta| <= pi), 'even-orders' (inversion-symmetric mask, coma / three-fold /
+    fourth-order terms added to the shifts), 'indefinite' (C12 > |C10|: no rotation-free polar factor;
+    recorded, not judged)"""
+    domain = domain or r.choice(["inside", "inside", "inside", "defocus", "large-angle", "even-orders", "indefinite"])
+    C10 = r.choice([-1, 1]) * math.exp(r.uniform(math.log(20.0), math.log(5000.0)))
+    case = {"domain": domain, "theta": r.uniform(-1.5, 1.5), "C10": C10, "C12": r.uniform(0.02, 0.9) * abs(C10),
+            "phi12": r.uniform(-1.55, 1.55), "wavelength": r.choice([0.0197, 0.0251, 0.0370]),
+            "gpts": r.choice([[16, 16], [12, 20], [24, 16], [15, 15], [17, 13], [21, 16]]),
+            "sampling": r.choice([[0.4, 0.4], [0.25, 0.5], [0.3, 0.2], [0.37, 0.29]]),
+            "mask": {"kind": r.choice(MASK_KINDS), "seed": r.randint(0, 10 ** 6), "frac": r.choice([0.35, 0.5, 0.7, 0.9])}}
+    if domain == "defocus":
+        case["C12"] = 0.0
+    elif domain == "large-angle":
+        case["theta"] = r.choice([-1, 1]) * r.uniform(math.pi / 2 + 0.05, math.pi)
+        case["phi12"] = r.uniform(-3.1, 3.1)
+    elif domain == "indefinite":
+        case["C12"] = r.uniform(1.1, 3.0) * abs(C10)
+    elif domain == "even-orders":
+        case["mask"]["kind"] = r.choice(["disk", "annulus"])
+        lam_k = case["wavelength"] * 0.5 / max(case["sampling"])
+        amp = lambda n: r.uniform(0.1, 1.0) * abs(C10) / lam_k ** (n - 1)  # noqa: E731
+        case["extra"] = {"C21": amp(2), "phi21": r.uniform(-3, 3), "C23": amp(2), "phi23": r.uniform(-3, 3),
+                         "C41": amp(4), "phi41": r.uniform(-3, 3), "C43": amp(4), "phi43": r.uniform(-3, 3),
+                         "C45": amp(4), "phi45": r.uniform(-3, 3)}
+        for k in r.sample(["C21", "C23", "C41", "C43", "C45"], r.randint(0, 3)):
+            case["extra"][k] = 0.0
+    return case
+
+
+def gen_shift_case(r):
+    kind, coefs = gen_polar(r, r.choice(["all", "subset", "loworder", "outside"]))
+    scale = {1: 300.0, 2: 3e3, 3: 3e4, 4: 3e5, 5: 3e6}
+    coefs = {k: (v if k.startswith("phi") else v * scale[int(k[1])]) for k, v in coefs.items()}
+    return {"coefs": coefs, "theta": r.choice([None, 0.0, r.uniform(-3.1, 3.1), r.uniform(-3.1, 3.1)]),
+            "wavelength": r.choice([0.0197, 0.0251, 0.0370]),
+            "gpts": r.choice([[16, 16], [12, 20], [15, 15], [17, 13]]),
+            "sampling": r.choice([[0.4, 0.4], [0.25, 0.5], [0.3, 0.2], [0.37, 0.29]]),
+            "mask": {"kind": r.choice(MASK_KINDS), "seed": r.randint(0, 10 ** 6), "frac": r.choice([0.5, 0.7, 0.9])}}
 
 
 # ------------------------------------------------------------------------------------------
@@ -402,3 +459,469 @@ def gen_alias_case(r):
             items.insert(r.randint(0, len(items)), ("semiangle_cutoff", None))
         d = dict(items)
     return {"dict": d, "nested": nested, "max_order": r.choice([5, 5, 3, 1, None])}
+
+
+# ==========================================================================================
+# round 3: equivalence outside the principal domain, coefficient representations, tables, general
+# shifts, bright-field mask shapes, fit outside the identifiable domain, setter sequences, value kinds
+
+
+def _wrap_pi(x):
+    """representative of x modulo pi in (-pi/2, pi/2]"""
+    y = (x + math.pi / 2) % math.pi - math.pi / 2
+    return y
+
+
+def oracle_equivalence(case):
+    """case: {coefs (ANY polar set), alpha[], phi[], wavelength}: polar -> Cartesian -> polar returns a set
+    with the identical surface and gradients, magnitudes |C|, angles with m*phi in (-pi, pi], isotropic
+    terms unchanged (C12_roundtrip_same_surface / _canonical_form / _same_gradients)"""
+    torch, cp, du, dp = mods()
+    coefs, wl = case["coefs"], case["wavelength"]
+    a0, p0 = t64(case["alpha"]), t64(case["phi"])
+    ct = cp.polar_to_cartesian_aberrations({k: t64(v) for k, v in coefs.items()}, dtype=torch.float64)
+    rt = {k: v.to(torch.float64) for k, v in cp.cartesian_to_polar_aberrations(ct).items()}
+    mag = max([1.0] + [abs(v) for k, v in coefs.items() if not k.startswith("phi")])
+    for C, p, m in ANG:
+        got, want = float(rt.get(C, 0.0)), abs(coefs.get(C, 0.0))
+        if not abs(got - want) <= 1e-9 * mag:
+            return ("roundtrip-magnitude", "polar -> cartesian -> polar: %s = %r -> %r, expected |%s| (coefs %s)"
+                    % (C, coefs.get(C, 0.0), got, C, coefs))
+        ang = m * float(rt.get(p, 0.0))
+        if not (-math.pi - 1e-12 < ang <= math.pi + 1e-12):
+            return ("roundtrip-angle-range", "polar -> cartesian -> polar: %d * %s = %r is outside (-pi, pi] (coefs %s)"
+                    % (m, p, ang, coefs))
+    for C in ISO:
+        if float(rt.get(C, 0.0)) != coefs.get(C, 0.0):
+            return ("roundtrip-isotropic", "polar -> cartesian -> polar changes %s: %r -> %r" % (C, coefs.get(C, 0.0), float(rt.get(C, 0.0))))
+    pairs = [("surface", cp.aberration_surface(a0, p0, wl, coefs), cp.aberration_surface(a0, p0, wl, rt))]
+    g0, g1 = cp.aberration_surface_polar_gradients(a0, p0, coefs), cp.aberration_surface_polar_gradients(a0, p0, rt)
+    c0, c1 = cp.aberration_surface_cartesian_gradients(a0, p0, coefs), cp.aberration_surface_cartesian_gradients(a0, p0, rt)
+    pairs += [("dchi_dk", g0[0], g1[0]), ("dchi_dphi", g0[1], g1[1]), ("dchi_dx", c0[0], c1[0]), ("dchi_dy", c0[1], c1[1])]
+    bound = 2 * math.pi * sum(abs(v) for k, v in coefs.items() if not k.startswith("phi")) * 1.2 ** 6
+    for nm, x, y in pairs:
+        s = max(1.0, bound / (wl if nm == "surface" else 1.0))
+        i = int((x - y).abs().argmax())
+        if not float((x - y).abs()[i]) <= 1e-9 * s:
+            return ("roundtrip-not-equivalent/" + nm, "%s of the coefficient set returned by polar -> cartesian -> polar is %r but "
+                    "%r for the original at alpha=%r phi=%r (coefs %s)" % (nm, float(y[i]), float(x[i]), float(a0[i]), float(p0[i]), coefs))
+    return None
+
+
+REPS = ["t64", "t32", "t64_1", "np64", "np32", "float"]
+
+
+def _rep(kind, v):
+    import numpy as np
+    import torch
+    return {"t64": lambda: torch.tensor(v, dtype=torch.float64), "t32": lambda: torch.tensor(v, dtype=torch.float32),
+            "t64_1": lambda: torch.tensor([v], dtype=torch.float64), "np64": lambda: np.float64(v),
+            "np32": lambda: np.float32(v), "float": lambda: float(v)}[kind]()
+
+
+def oracle_reps(case):
+    """case: {coefs (values exactly representable in float32), alpha[], phi[], wavelength}: the meaning of a
+    coefficient set does not depend on whether the values are Python floats, NumPy scalars or 0-d / 1-element
+    tensors of either precision — wherever a function accepts the representation"""
+    torch, cp, du, dp = mods()
+    coefs, wl = case["coefs"], case["wavelength"]
+    a0, p0 = t64(case["alpha"]), t64(case["phi"])
+    labels = list(du.ABERRATION_PRESETS["all"])
+
+    def observe(c):
+        out = {}
+        for nm, fn in (("aberration_surface", lambda: cp.aberration_surface(a0, p0, wl, c)),
+                       ("polar_gradients[0]", lambda: cp.aberration_surface_polar_gradients(a0, p0, c)[0]),
+                       ("polar_gradients[1]", lambda: cp.aberration_surface_polar_gradients(a0, p0, c)[1]),
+                       ("cartesian_gradients[0]", lambda: cp.aberration_surface_cartesian_gradients(a0, p0, c)[0]),
+                       ("cartesian_gradients[1]", lambda: cp.aberration_surface_cartesian_gradients(a0, p0, c)[1]),
+                       ("polar_to_cartesian", lambda: torch.stack([torch.as_tensor(
+                           cp.polar_to_cartesian_aberrations(c).get(lab, 0.0), dtype=torch.float64).reshape(-1)[0] for lab in labels])),
+                       ("merge(., 0)", lambda: torch.stack([torch.as_tensor(
+                           cp.merge_aberration_coefficients(c, {}).get(s, 0.0), dtype=torch.float64).reshape(-1)[0]
+                           for s in POLAR_SYMBOLS if not s.startswith("phi")]))):
+            try:
+                out[nm] = fn().to(torch.float64)
+            except (TypeError, ValueError, RuntimeError, AttributeError):
+                out[nm] = None           # representation not accepted by this function: nothing to compare
+        return out
+
+    ref = observe({k: _rep("t64", v) for k, v in coefs.items()})
+    for kind in case.get("reps", REPS):
+        got = observe({k: _rep(kind, v) for k, v in coefs.items()})
+        for nm, y in got.items():
+            x = ref[nm]
+            if x is None or y is None:
+                continue
+            tol = (1e-9 if kind in ("t64", "t64_1", "np64", "float") else 1e-5) * _scale(x)
+            if x.shape != y.shape or not float((x - y).abs().max()) <= tol:
+                return ("coefficient-representation/" + kind, "%s with the coefficients given as %s differs from the same "
+                        "coefficients given as float64 tensors: %s vs %s (coefs %s)" % (nm, kind, y.reshape(-1)[:3].tolist(),
+                                                                                          x.reshape(-1)[:3].tolist(), coefs))
+    return None
+
+
+def expected_label(label):
+    """independent reading of a Cartesian label: 'C' n m ['_a' | '_b']"""
+    import re
+    mm = re.fullmatch(r"C([1-9])([0-9])(?:_([ab]))?", label)
+    if not mm:
+        return None
+    n, m, kind = int(mm.group(1)), int(mm.group(2)), mm.group(3)
+    if (kind is None) != (m == 0) or m > n + 1 or (n + m) % 2 == 0:
+        return None
+    return n, m, kind
+
+
+def oracle_tables(T=None):
+    """deterministic checks of the naming tables as the RUNNING modules hold them; T: the translation of this run
+    (tables read from the source text, which the Coq theorems C12_alias_tables_tied / C12_tables_closed speak about)"""
+    torch, cp, du, dp = mods()
+    import quantem.diffractive_imaging.probe_models as pm
+    bad = []
+    if T is not None:
+        pairs = [("complex_probe.POLAR_SYMBOLS", tuple(cp.POLAR_SYMBOLS), tuple(T.polar_symbols)),
+                 ("complex_probe.POLAR_ALIASES", dict(cp.POLAR_ALIASES), dict(T.polar_aliases)),
+                 ("direct_ptycho_utils.ABERRATION_PRESETS", {k: list(v) for k, v in du.ABERRATION_PRESETS.items()},
+                  {k: list(v) for k, v in T.presets.items()}),
+                 ("ProbeBase.DEFAULT_PROBE_PARAMS keys", tuple(pm.ProbeBase.DEFAULT_PROBE_PARAMS), tuple(T.default_probe_keys)),
+                 ("probe_models.POLAR_SYMBOLS", tuple(pm.POLAR_SYMBOLS), tuple(T.polar_symbols)),
+                 ("probe_models.POLAR_ALIASES", dict(pm.POLAR_ALIASES), dict(T.polar_aliases)),
+                 ("direct_ptychography.ABERRATION_PRESETS", {k: list(v) for k, v in dp.ABERRATION_PRESETS.items()},
+                  {k: list(v) for k, v in T.presets.items()})]
+        for nm, run, src in pairs:
+            if run != src:
+                bad.append(("tables-runtime-vs-source", "%s at run time is %r but the source text read by the translator has %r"
+                            % (nm, run, src), False))
+    a0, p0, wl = t64([0.3, 0.9, 1.1]), t64([0.4, -2.0, 3.0]), 0.0251
+    full = list(du.ABERRATION_PRESETS["all"])
+    Bfull = cp.aberration_surface_cartesian_basis(a0, p0, wl, full)
+    for name, labels in du.ABERRATION_PRESETS.items():
+        for lab in labels:
+            want = expected_label(lab)
+            try:
+                got = tuple(cp.parse_cartesian_aberration_label(lab))
+            except Exception as e:  # noqa
+                got = "raises %r" % e
+            if want is None or got != want:
+                bad.append(("label-parse", "ABERRATION_PRESETS[%r] label %r parses to %r, expected %r" % (name, lab, got, want), True))
+        if all(lab in full for lab in labels):
+            B = cp.aberration_surface_cartesian_basis(a0, p0, wl, list(labels))
+            idx = [full.index(lab) for lab in labels]
+            if B.shape != (3, len(labels)) or not torch.equal(B, Bfull[:, idx]):
+                bad.append(("preset-basis", "basis of preset %r is not the matching columns of the basis of preset 'all'" % name, True))
+        else:
+            bad.append(("preset-labels", "preset %r has labels outside preset 'all': %s" % (name, [x for x in labels if x not in full]), True))
+    # a label whose kind is neither absent, 'a' nor 'b' must not silently yield a column
+    for lab in ("C12_c", "C12_", "C21_x", "C30_0"):
+        try:
+            B = cp.aberration_surface_cartesian_basis(a0, p0, wl, [lab])
+            bad.append(("invalid-label-accepted", "aberration_surface_cartesian_basis accepts the label %r (returns %s)"
+                        % (lab, B.reshape(-1)[:3].tolist()), True))
+        except Exception:  # noqa
+            pass
+    return bad
+
+
+def _mask2(case):
+    """(mask, kx, ky, cond): bright-field mask of the requested shape on the fftfreq grid; cond = condition number
+    of the frequency design matrix of the masked pixels"""
+    import random as _random
+    torch, cp, du, dp = mods()
+    gpts, sampling, mk = tuple(case["gpts"]), tuple(case["sampling"]), case["mask"]
+    kx = torch.fft.fftfreq(gpts[0], sampling[0])
+    ky = torch.fft.fftfreq(gpts[1], sampling[1])
+    KX, KY = kx[:, None].broadcast_to(gpts), ky[None, :].broadcast_to(gpts)
+    kk = torch.sqrt(KX ** 2 + KY ** 2)
+    R = mk["frac"] * min(0.5 / sampling[0], 0.5 / sampling[1])
+    rr = _random.Random(mk["seed"])
+    disk = kk < R
+    if mk["seed"] % 3 == 0:
+        disk = disk & (kk > 0)
+
+    def build(kind):
+        if kind == "half-x":
+            return disk & (KX >= 0)
+        if kind == "half-y":
+            return disk & (KY > 0)
+        if kind == "quadrant":
+            return disk & (KX > 0) & (KY > 0)
+        if kind == "offaxis":
+            a = rr.uniform(-math.pi, math.pi)
+            return torch.sqrt((KX - 0.5 * R * math.cos(a)) ** 2 + (KY - 0.5 * R * math.sin(a)) ** 2) < 0.5 * R
+        if kind == "annulus":
+            return disk & (kk >= 0.5 * R)
+        if kind == "random":
+            keep = torch.tensor([[rr.random() < 0.5 for _ in range(gpts[1])] for _ in range(gpts[0])])
+            return disk & keep
+        return disk
+
+    def cond(mask):
+        K = torch.stack([KX[mask], KY[mask]], -1).to(torch.float64)
+        if K.shape[0] < 3:
+            return float("inf")
+        ev = torch.linalg.eigvalsh(K.T @ K)
+        return float("inf") if float(ev[0]) <= 1e-12 * float(ev[1]) else math.sqrt(float(ev[1]) / float(ev[0]))
+
+    mask = build(mk["kind"])
+    c = cond(mask)
+    if not c < 50.0:
+        mask = disk
+        c = cond(mask)
+    return mask, kx, ky, c
+
+
+def _is_inversion_symmetric(mask):
+    import torch
+    return bool(torch.equal(mask, torch.roll(torch.flip(mask, (0, 1)), (1, 1), (0, 1))))
+
+
+def _shifts(case, theta, coefs, mask):
+    torch, cp, du, dp = mods()
+    return dp.DirectPtychography._return_lateral_shifts(_fake_dp(case), theta, coefs, mask)
+
+
+def oracle_shift_general(case):
+    """case: gen_shift_case(): with ANY coefficient set, rotation (None = no rotation), grid and bright-field mask the
+    lateral shift of every masked pixel is (wavelength / 2 pi) x the true Cartesian gradient (autograd, float64) of the
+    surface at the rotated scattering angle, in the masked pixels' row-major order"""
+    torch, cp, du, dp = mods()
+    coefs, th, wl = case["coefs"], case["theta"], case["wavelength"]
+    mask, kx, ky, _ = _mask2(case)
+    sh = _shifts(case, th, coefs, mask).to(torch.float64)
+    n = int(mask.sum())
+    if tuple(sh.shape) != (n, 2):
+        return ("shift-shape", "_return_lateral_shifts returns shape %s for a mask of %d pixels" % (tuple(sh.shape), n))
+    t = 0.0 if th is None else th
+    KX = kx[:, None].broadcast_to(mask.shape)[mask].to(torch.float64)
+    KY = ky[None, :].broadcast_to(mask.shape)[mask].to(torch.float64)
+    c, s = math.cos(t), math.sin(t)
+    x = ((KX * c - KY * s) * wl).clone().requires_grad_(True)       # passive rotation by -(-theta): see _passively_rotate_grid
+    y = ((KX * s + KY * c) * wl).clone().requires_grad_(True)
+    r2 = x * x + y * y
+    safe = r2 > 0
+    alpha = torch.sqrt(torch.where(safe, r2, torch.ones_like(r2)))
+    phi = torch.atan2(torch.where(safe, y, torch.zeros_like(y)), torch.where(safe, x, torch.ones_like(x)))
+    alpha = torch.where(safe, alpha, torch.zeros_like(alpha))
+    chi = cp.aberration_surface(alpha, phi, wl, coefs)
+    gx, gy = torch.autograd.grad(chi.sum(), (x, y), allow_unused=True)
+    gx = torch.zeros_like(KX) if gx is None else gx
+    gy = torch.zeros_like(KX) if gy is None else gy
+    wx, wy = wl * gx / (2 * math.pi), wl * gy / (2 * math.pi)
+    wx, wy = torch.where(safe, wx, torch.zeros_like(wx)), torch.where(safe, wy, torch.zeros_like(wy))
+    kmax = float(torch.sqrt(KX * KX + KY * KY).max()) * wl
+    scale = max(1e-30, sum(abs(v) * kmax ** int(k[1]) for k, v in coefs.items() if not k.startswith("phi")))
+    err = torch.maximum((sh[:, 0] - wx).abs(), (sh[:, 1] - wy).abs())
+    i = int(err.argmax())
+    if not float(err[i]) <= 3 * RTOL32 * scale:
+        return ("shift-gradient", "lateral shift at k0=(%r, %r) is (%r, %r) but (wavelength / 2 pi) x the gradient of the surface "
+                "there is (%r, %r) (rotation %r, coefs %s)" % (float(KX[i]), float(KY[i]), float(sh[i, 0]), float(sh[i, 1]),
+                                                               float(wx[i]), float(wy[i]), th, coefs))
+    if th is None:
+        sh0 = _shifts(case, 0.0, coefs, mask).to(torch.float64)
+        if not float((sh - sh0).abs().max()) <= 1e-6 * scale:
+            return ("shift-rotation-none", "_return_lateral_shifts with rotation_angle=None differs from rotation_angle=0.0")
+    return None
+
+
+def oracle_fit2(case):
+    """case: gen_fit2(); returns (key, message) | None.  Judged per domain (see gen_fit2)."""
+    torch, cp, du, dp = mods()
+    th, C10, C12, p, wl, dom = case["theta"], case["C10"], case["C12"], case["phi12"], case["wavelength"], case["domain"]
+    mask, kx, ky, cond = _mask2(case)
+    coefs = {"C10": C10, "C12": C12, "phi12": p}
+    sh_lin = _shifts(case, th, coefs, mask)
+    sh = sh_lin
+    if dom == "even-orders":
+        if not _is_inversion_symmetric(mask):
+            return None
+        sh = _shifts(case, th, dict(coefs, **case["extra"]), mask)
+    gp, sp = tuple(case["gpts"]), tuple(case["sampling"])
+    out = du.fit_aberrations_from_shifts(sh, mask, wl, gp, sp)
+    if dom == "indefinite":
+        return None
+    f = max(1.0, cond)
+    big = float(sh.abs().max()) / max(1e-30, float(sh_lin.abs().max()))
+    tol = RTOL32 * f * max(1.0, big)
+    desc = "theta=%r C10=%r C12=%r phi12=%r mask=%s grid=%s sampling=%s" % (th, C10, C12, p, case["mask"], gp, sp)
+    # (1) the fitted parameters predict the shifts that were fitted (any domain with C12 < |C10|)
+    sh_fit = _shifts(case, out["rotation_angle"], {"C10": out["C10"], "C12": out["C12"], "phi12": out["phi12"]}, mask)
+    scale = max(1e-30, float(sh_lin.abs().max()))
+    err = float((sh_fit - sh_lin).abs().max())
+    if not err <= 5 * tol * scale:
+        return ("fit-not-equivalent/" + dom, "the shifts predicted from the fitted parameters %s differ from the fitted shifts by %r "
+                "(largest shift %r) for %s" % (out, err, scale, desc))
+    # (2) values
+    want_th, want_C10 = th, C10
+    if dom == "large-angle":
+        want_th, want_C10 = (th - math.pi if th > 0 else th + math.pi), -C10
+    checks = [("rotation_angle", out["rotation_angle"] - want_th, tol), ("C10", out["C10"] - want_C10, tol * abs(C10)),
+              ("C12", out["C12"] - C12, tol * abs(C10))]
+    if C12 > 0:
+        want_p = p + (math.pi / 2 if dom == "large-angle" else 0.0)
+        checks.append(("phi12", _wrap_pi(out["phi12"] - want_p) if dom == "large-angle" else out["phi12"] - want_p,
+                       tol * abs(C10) / C12))
+    for nm, d, t in checks:
+        if not abs(d) <= t:
+            return ("fit-roundtrip2/%s/%s" % (dom, nm), "fit of the shifts predicted for %s returns %s off by %r (tolerance %r; all: %s)"
+                    % (desc, nm, d, t, out))
+    return None
+
+
+# ------------------------------------------------------------------------------------------
+# the probe-params setter assigned several times; value kinds
+
+
+def run_setter_seq(dicts, max_order, real_object=False):
+    """assign the dictionaries one after the other to the SAME object; result of every step"""
+    from quantem.diffractive_imaging.probe_models import ProbeBase, ProbePixelated
+    res = []
+    obj = None
+    if not real_object:
+        obj = types.SimpleNamespace(DEFAULT_PROBE_PARAMS=ProbeBase.DEFAULT_PROBE_PARAMS,
+                                    _probe_params=dict(ProbeBase.DEFAULT_PROBE_PARAMS), _max_aberrations_order=max_order)
+    for d in dicts:
+        params = copy.deepcopy(d)
+        try:
+            if real_object and obj is None:
+                obj = ProbePixelated.from_params(probe_params=params, num_probes=1)
+                o = obj.probe_params["aberration_coefs"]
+            elif real_object:
+                obj.probe_params = params
+                o = obj.probe_params["aberration_coefs"]
+            else:
+                ProbeBase.probe_params.fset(obj, params)
+                o = obj._probe_params["aberration_coefs"]
+            res.append({"ok": {k: float(v) for k, v in o.items()}})
+        except ValueError:
+            res.append({"err": 1})
+        except KeyError:
+            res.append({"err": 2})
+        except TypeError:
+            res.append({"err": 3})
+        except Exception as e:  # noqa
+            res.append({"err": 9, "exc": repr(e)})
+    return res
+
+
+def gen_setter_seq(r):
+    steps = []
+    for i in range(r.randint(2, 4)):
+        c = gen_alias_case(r)
+        d = c["dict"]
+        kind = r.choice(["as-is", "defocus", "C10", "energy-only", "nested-C10"])
+        if kind == "defocus":
+            d = dict(d, defocus=r.randint(-4000, 4000) / 8.0)
+            d.pop("C10", None)
+        elif kind == "C10":
+            d = {k: v for k, v in d.items() if k != "defocus"}
+            d["C10"] = r.randint(-4000, 4000) / 8.0
+        elif kind == "energy-only":
+            d = {"energy": 80000.0, "semiangle_cutoff": 20.0}
+        elif kind == "nested-C10":
+            d = {"energy": 80000.0, "aberration_coefs": {"C10": r.randint(-4000, 4000) / 8.0, "C30": 7.0}}
+        steps.append(d)
+    return {"steps": steps, "max_order": r.choice([5, 5, 3, None])}
+
+
+def oracle_setter_seq(case, results, fresh):
+    """results: per-step outcome on ONE object; fresh: outcome of each step's dictionary on a fresh object.
+    What a dictionary means must not depend on what was assigned before."""
+    for i, (d, got, want) in enumerate(zip(case["steps"], results, fresh)):
+        if ("ok" in got) != ("ok" in want) or got.get("err") != want.get("err") or got.get("ok") != want.get("ok"):
+            return ("setter-history-dependence", "assignment #%d of %s to probe_params after %s gives aberration_coefs %s, but %s on a "
+                    "fresh object" % (i + 1, d, case["steps"][:i], got, want))
+        if "ok" in got:
+            eff = _effective(d)
+            defocus = [v for k, v in eff if k == "defocus"]
+            c10 = [v for k, v in eff if k == "C10"]
+            if defocus and not c10 and len(set(defocus)) == 1 and got["ok"].get("C10", 0.0) != -defocus[0]:
+                return ("defocus-alias/setter-sequence", "assignment #%d: defocus=%r accepted but C10=%r (steps %s)"
+                        % (i + 1, defocus[0], got["ok"].get("C10", 0.0), case["steps"]))
+    return None
+
+
+VALUE_KINDS = ["bool", "np.float32", "np.float64", "np.int64", "tensor0", "tensor1", "str"]
+JUNK_KINDS = ["str-abc", "list", "tuple", "complex", "tensor2"]
+
+
+def _value(kind, v):
+    import numpy as np
+    import torch
+    return {"bool": lambda: bool(v), "np.float32": lambda: np.float32(v), "np.float64": lambda: np.float64(v),
+            "np.int64": lambda: np.int64(v), "tensor0": lambda: torch.tensor(float(v)),
+            "tensor1": lambda: torch.tensor([float(v)]), "str": lambda: repr(float(v)),
+            "str-abc": lambda: "abc", "list": lambda: [float(v)], "tuple": lambda: (1.0, 2.0), "complex": lambda: complex(v, 1.0),
+            "tensor2": lambda: torch.tensor([1.0, 2.0])}[kind]()
+
+
+def materialize(case):
+    """the dictionary handed to the handlers: case['dict'] with the values listed in case['kinds']
+    ({key: kind}, top level and inside 'aberration_coefs') replaced by the same number in another Python type"""
+    kinds = case.get("kinds") or {}
+    if not kinds:
+        return case["dict"]
+
+    def walk(d, prefix):
+        out = {}
+        for k, v in d.items():
+            if isinstance(v, dict):
+                out[k] = walk(v, prefix + k + "/")
+            elif v is not None and (prefix + k) in kinds:
+                out[k] = _value(kinds[prefix + k], v)
+            else:
+                out[k] = v
+        return out
+
+    return walk(case["dict"], "")
+
+
+def add_value_kinds(r, case):
+    """pick another Python type for some of the numbers of an alias case (numbers that the type holds exactly)"""
+    kinds = {}
+
+    def walk(d, prefix):
+        for k, v in d.items():
+            if isinstance(v, dict):
+                walk(v, prefix + k + "/")
+            elif v is not None and k not in ("energy", "semiangle_cutoff", "soft_edges") and r.random() < 0.6:
+                kind = r.choice(VALUE_KINDS)
+                if kind == "bool" and v not in (0, 1):
+                    kind = "tensor0"
+                if kind == "np.int64" and float(v) != int(v):
+                    kind = "np.float64"
+                kinds[prefix + k] = kind
+
+    walk(case["dict"], "")
+    return dict(case, kinds=kinds)
+
+
+def oracle_junk(r_case):
+    """case: {'key': alias or symbol, 'kind': junk kind, 'nested': bool}: a value that is not a number must not be
+    accepted silently by any handler"""
+    key, kind = r_case["key"], r_case["kind"]
+    v = _value(kind, 1.5)
+    res = {"validate": run_validate({key: v}), "standardize": run_standardize({key: v}),
+           "setter": run_setter({"aberration_coefs": {key: v}} if r_case.get("nested") else {key: v}, 5)}
+    for h, o in res.items():
+        if "ok" in o:
+            return ("non-numeric-accepted/" + h, "%s accepts %s=%r and returns %s" % (h, key, v, o["ok"]))
+    return None
+
+
+def oracle_hyperparameter_state(case, validate_result):
+    """DirectPtychography's HyperparameterState accepts coefficient dictionaries through validate_aberration_coefficients:
+    the stored initial set and an override carry the same meaning ('defocus' -> C10 = -defocus)"""
+    torch, cp, du, dp = mods()
+    if "ok" not in validate_result:
+        return None
+    d = materialize(case)
+    hs = dp.HyperparameterState(initial_aberrations=copy.deepcopy(d))
+    got = {k: float(v) for k, v in hs.current_aberrations().items()}
+    if got != validate_result["ok"]:
+        return ("defocus-alias/hyperparameter-state", "HyperparameterState(initial_aberrations=%s).current_aberrations() = %s but "
+                "validate_aberration_coefficients gives %s" % (case["dict"], got, validate_result["ok"]))
+    over = {k: float(v) for k, v in hs.current_aberrations(override_fixed={"defocus": 12.5}).items()}
+    if over.get("C10") != -12.5:
+        return ("defocus-alias/hyperparameter-state", "current_aberrations(override_fixed={'defocus': 12.5}) has C10=%r" % over.get("C10"))
+    return None
